@@ -291,6 +291,25 @@ theorem floatenum_consistent_fails : ¬ floatenum_consistent_statement := by
   have := (h fcfg 0 (by decide) (by decide) [] (.driverAssignFloat 9)).1
   exact absurd this (by unfold ShowsIndexValue; decide)
 
+/-- **closest_first_minimum** — the tie rule of `min(valuedict, key=…)`: the selected label is strictly closer than
+every label before it in `valuedict` order and at least as close as every label after it. -/
+theorem closest_first_minimum (vdict : List (Int × Val)) (x : Val) (i : Int) (h : closest vdict x = some i) :
+    ∃ pre v post, vdict = pre ++ (i, v) :: post ∧ (∀ e ∈ pre, dist v x < dist e.2 x) ∧
+      ∀ e ∈ post, dist v x ≤ dist e.2 x := by
+  cases vdict with
+  | nil => simp [closest] at h
+  | cons c cs =>
+    simp only [closest, Option.some.injEq] at h
+    rcases closestFrom_first x cs c with ⟨hr, hall⟩ | ⟨pre, post, heq, hlt, hpre, hpost⟩
+    · refine ⟨[], c.2, cs, ?_, by simp, hall⟩
+      rw [hr] at h; rw [← h]; rfl
+    · refine ⟨c :: pre, (closestFrom c cs x).2, post, ?_, ?_, hpost⟩
+      · rw [← h, List.cons_append, ← heq]
+      · intro e he
+        rcases List.mem_cons.1 he with e1 | e1
+        · rw [e1]; exact hlt
+        · exact hpre e e1
+
 /-- tie rule of `min(valuedict, key=…)`: of two equally close labels the first in `valuedict` order wins -/
 example : closest [(0, 4), (1, 2), (2, 8)] 3 = some 0 ∧ closest [(1, 2), (0, 4), (2, 8)] 3 = some 1 := by decide
 
